@@ -14,7 +14,7 @@ from vk.ob import obligation, PARAM, THOROUGH, pick
 
 @obligation(funcs=["storage.kv.WriterThread._post_save", "storage.kv.WriterThread._delete_event", "storage.kv.Index.scanner",
                    "storage.kv.bytes_from_hex"],
-            timeout=(280, 1800),
+            timeout=(450, 1800),
             bounds="store {e0 (regular, author A or B), e2 (regular, other id, author by bool)} then a kind-5 event by A or B with "
                    "<=2 e/p tags by selector from {e:e0, e:e2.., e:unknown/non-hex, bare e, p:e0, e:E0 upper-case}; created_at of "
                    "all three symbolic 1..200 (older, equal and newer than the deletion; in the quick tier the bystander shares e0's timestamp and e0's author is fixed)")
